@@ -26,6 +26,7 @@ PROP_FORMULAS = {
 }
 ALL_FORMULAS = sorted(set(sum(PROP_FORMULAS.values(), [])))
 
+ACTIONS = ['Pop', 'Src', 'Search', 'Sea', 'Gen', 'Borrow', 'Bor', 'BCheck', 'BSea', 'Decide', 'Write']
 DEVS = ['Dev_StaleStatus', 'Dev_EmptyVanishes', 'Dev_MissingRequestedNotBorrowed', 'Dev_RefetchAlias']
 
 # name: (NSrc, NSea, NBor, ReqSet, SrcAnswersFor, SeaAns, GenAns, BorAns, PutAns, bounded)
@@ -77,7 +78,7 @@ def trace_cfg(nsrc, nsea, nbor, devs=()):
 
 
 def model_check(sl, formulas, export='Export', timeout=1500):
-    res = tlc.run('MC_MibCompile', 'gen.cfg', files={'gen.cfg': cfg_text(sl, formulas, export)}, timeout=timeout, deadlock=True)
+    res = tlc.run('MC_MibCompile', 'gen.cfg', files={'gen.cfg': cfg_text(sl, formulas, export)}, timeout=timeout, deadlock=True, coverage=True)
     return res
 
 
@@ -148,6 +149,9 @@ def run(out, prop, tier, seed, max_replay=None, only_slices=None):
         res = model_check(sl, formulas)
         t1 = _t.time()
         out.add_tlc(res, 'MibCompile/' + sl)
+        cov = out.extra.setdefault('action_coverage', {})
+        for a, (d_, t_) in res.coverage.items():
+            cov[a] = cov.get(a, 0) + t_
         scs = res.exports
         out.extra.setdefault('scenarios_exported', {})[sl] = len(scs)
         if len(scs) > cap:
@@ -190,6 +194,10 @@ def run(out, prop, tier, seed, max_replay=None, only_slices=None):
             elif v['refine'] != 'ok':
                 out.add_drift('slice=%s at=%s expected=%s got=%s procOk=%s [%s]' % (
                     sl, v['at'], v['expected'], v['got'], v['procOk'], brief(tr)))
+    # vacuity guard: every action of the specification must have been taken in the slices of this run
+    never = [a for a in ACTIONS if out.extra.get('action_coverage', {}).get(a, 0) == 0]
+    if never and not only_slices:
+        out.machinery_errors.append('actions of MibCompile never taken in this run (vacuous): %s' % never)
     if prop == 'C08' and not only_slices:
         # "always terminates": a temporal property, checked under the fair specification without any state constraint
         lcfg = cfg_text('l1', []).replace('INIT Init\nNEXT Next\n', 'SPECIFICATION Spec\n') + 'PROPERTY Termination\n'
